@@ -1,16 +1,58 @@
 (* C01 - Printing a PHIL tree and re-parsing the text reproduces the tree.   PARTIAL.
-   Proved here: the printer's rendering of every quoted word is read back exactly by the tokenizer in
-   value context, whatever follows (from C03).  The tree-level round trip (names, nesting, order, '!',
-   words, attributes at levels 3 / 2 / 0, any width, byte-identical second print) is decided on every
-   run by executing parse -> print -> parse -> print in freephil and in the extracted model and by the
-   oracle comparing the two trees. *)
-From Coq Require Import List Ascii String.
-From Phil Require Import Base Tokenizer QuoteProofs.
+   Proved here, for every string / word list / width / following text:
+   - the printer's rendering of every quoted word is read back exactly in value context (C03);
+   - the VALUE WORDS of a definition survive print -> parse at every print width: for every word list in
+     words_ok (unquoted words lexically safe and not a lone backslash or hash; an unquoted word does not
+     directly follow a quoted word that contains a newline - such lists never come out of the parser)
+     the text produced by the printer's show_words (wrapped with trailing backslashes where the width
+     demands it, never after a multi-line word) is read by collect_assigned_words as exactly those words
+     (texts and quote styles; each word's line is the line it is printed on), leaving the position at
+     which the structure tokenizer continues with the following text;
+   - a whole definition `name = words` (identifier name, dotted or not, not disabled, no attributes
+     printed) parses back to exactly that definition, at every width, also when followed by further text
+     (cobj level);
+   - the parser never yields a lone unquoted backslash as a value word, so words_ok loses nothing there.
+   Decided by correspondence + oracle only (every run): attributes (levels 2/3, wrapped help text, types),
+   disabled marks, scopes and nesting, levels' views, byte-identical second print. *)
+From Coq Require Import List Ascii String ZArith.
+From Phil Require Import Base Tokenizer Tree Parser Show QuoteProofs WordsRoundtrip.
 Import ListNotations.
 
-Theorem C01_quoted_word_roundtrip_partial : forall q s rest line,
+Theorem C01_quoted_word_roundtrip : forall q s rest line,
   q <> QN ->
   (is_triple q = false -> s = [] -> prefixb [qchar q] rest = false) ->
-  nw s1 false (str_of_word (mkword s q 0) ++ rest) line = TWord (mkword s q line) rest (line + count_nl s).
-Proof. intros q s rest line Hq Ho. apply (proj1 (value_context_quoted q s rest line Hq Ho)). Qed.
-Print Assumptions C01_quoted_word_roundtrip_partial.
+  nw s1 false (str_of_word (mkword s q 0) ++ rest) line = TWord (mkword s q line) rest (line + count_nl s)
+  /\ nw s0 false (str_of_word (mkword s q 0) ++ rest) line = TWord (mkword s q line) rest (line + count_nl s).
+Proof. exact value_context_quoted. Qed.
+Print Assumptions C01_quoted_word_roundtrip.
+
+Theorem C01_value_words_roundtrip_partial : forall ws cur indent width rest txt line lead fuel,
+  forallb isspace indent = true -> count_nl indent = 0 -> ws <> [] -> words_ok ws = true ->
+  wline lead = line -> weq lead [bs] = false ->
+  show_words ws cur indent width ++ rest = cur ++ txt ->
+  value_ends rest (S (endw ws cur indent width line)) ->
+  length txt < fuel ->
+  exists s', caw fuel txt line false lead [] lead
+               = Ok (relw ws cur indent width line, s', endw ws cur indent width line)
+             /\ (s' = nl :: rest \/ s' = [] /\ forallb isspace rest = true)
+             /\ nw s0 false s' (endw ws cur indent width line) = nw s0 false rest (S (endw ws cur indent width line)).
+Proof. exact caw_show_words. Qed.
+Print Assumptions C01_value_words_roundtrip_partial.
+
+Theorem C01_value_words_texts_and_quotes_kept : forall ws cur indent width line,
+  map noline (relw ws cur indent width line) = map noline ws.
+Proof. exact caw_show_words_values. Qed.
+Print Assumptions C01_value_words_texts_and_quotes_kept.
+
+Theorem C01_definition_roundtrip_partial : forall o n ws indent width,
+  is_ident n = true -> eqs n include_w = false -> name_reserved_def n = false -> prefix_reserved n = false ->
+  forallb isspace indent = true -> count_nl indent = 0 -> ws <> [] -> words_ok ws = true ->
+  parse o (show_words ws (n ++ s_ " =") indent width)
+  = Ok [adopt (Def (mkhdr n false 0 false 1 1) (relw ws (n ++ s_ " =") indent width 1) [])].
+Proof. exact parse_show_def_words. Qed.
+Print Assumptions C01_definition_roundtrip_partial.
+
+Theorem C01_parser_never_yields_backslash_word : forall fuel s line hc last lead ws s' l',
+  caw fuel s line hc last [] lead = Ok (ws, s', l') -> Forall not_bs_word ws.
+Proof. exact caw_never_yields_backslash_word. Qed.
+Print Assumptions C01_parser_never_yields_backslash_word.
